@@ -40,6 +40,8 @@ func c04(w *core.World, r *core.Report) {
 	ruleRecoverFrames(w, r)
 	r.Rule("R04.9", "every reply of a pipelined expanded entry is checked in the iteration that received it", 1)
 	ruleReplyErrorsChecked(w, r)
+	r.Rule("R03.6", "every replay path of an entry, the 'Bad data format' fallback included, hands the target's error up (shared with C03)", 3)
+	ruleExpiryPaths(w, r)
 	r.Rule("R20.9", "a RESTORE error is swallowed as 'key exists' only for the published BUSYKEY texts (shared with C20)", 2)
 	ruleBusyKeyTexts(w, r)
 }
